@@ -25,10 +25,11 @@ package jsonrpc2
 //@ func parsePositionalArguments
 //@ property C15 C16
 //@ safety on
-//@ ensures [arity] err == nil ==> len(result) == len(types) || (len(rawArgs) == 0 && len(result) == 0) || len(result) == 0
+//@ ensures [arity] err == nil ==> len(result) == len(types) || len(result) == 0
+//@ ensures [too-many-is-an-error] err == nil && len(rawArgs) != 0 && string(rawArgs) != "null" ==> jsonelems(string(rawArgs)) <= len(types)
 //@ ensures [error-kind] err != nil ==> result == nil
 //@ modifies nothing
-//@ loop 0 invariant [count] len(args) == i && i >= 0 && i <= len(types)
+//@ loop 0 invariant [count] len(args) == i && i >= 0 && i <= len(types) && dec.dcount == i && dec.dsrc.rcontent == string(rawArgs)
 //@ loop 1 invariant [count] len(args) == i && i <= len(types)
 
 //@ func (*Server).Handle
